@@ -1,5 +1,6 @@
 import BasicModel.Proto
 import BasicModel.ProtoAst
+import BasicModel.ProtoProg
 import BasicModel.Spec.IntSpec
 import BasicModel.Spec.StrSpec
 /-
@@ -103,7 +104,26 @@ def answerParse : List String → String
       | _, _ => "bad-request")
   | [] => "bad-request"
 
+/-- `<hexsrc>~<num|-> <tok> <tok>...` -/
+def readSrcLine (s : String) : Option Line :=
+  match s.splitOn "~" with
+  | [_, toks] =>
+    (match toks.splitOn " " with
+     | ln :: ts => (match readLineNo ln, (ts.filter (· ≠ "")).mapM readToken with
+        | some n, some ts => some ⟨n, ts⟩
+        | _, _ => none)
+     | [] => none)
+  | _ => none
+
+def answerCompile (rest : String) : String :=
+  match (rest.splitOn "|").mapM readSrcLine with
+  | none => "bad-request"
+  | some lines =>
+    let p := Program.codegenLines {} lines
+    showProgram p.linkProg
+
 def answer (line : String) : String :=
+  if line.startsWith "COMPILE " then answerCompile (line.drop 8).toString else
   match line.splitOn " " with
   | "PARSE" :: rest => answerParse rest
   | "SPEC" :: rest => answerSpec rest
